@@ -2,7 +2,7 @@
     Only statements; every proof is [exact <lemma>]. *)
 From Coq Require Import Reals List Lra Lia.
 From Dadi Require Import Base.Num Base.NumR Model.Tridiag Model.Scheme Model.NDSweep
-  Proofs.TridiagProofs Proofs.SchemeProofs Proofs.Linearity Proofs.Rescale Proofs.NDLines Proofs.NDSweepProofs Proofs.IntegrateLinear.
+  Proofs.TridiagProofs Proofs.SchemeProofs Proofs.Linearity Proofs.Rescale Proofs.NDLines Proofs.NDSweepProofs Proofs.IntegrateLinear Proofs.IntegrateRescale.
 Import ListNotations.
 Local Open Scope R_scope.
 
@@ -72,6 +72,24 @@ Theorem C03_sweep_rescale_invariant_any_dimension : forall shape grids pops pops
   sweep shape grids pops' k (c * dt) dj phi = sweep shape grids pops k dt dj phi.
 Proof. exact sweep_rescale_invariant. Qed.
 Print Assumptions C03_sweep_rescale_invariant_any_dimension.
+
+(** whole constant-parameter integrations are independent of the reference size: every size and time times c,
+    every migration rate, selection coefficient and theta0 divided by c, in any number of populations, over any
+    number of time steps (the time-step rule scales with c), with frozen / nomut flags *)
+Theorem C03_integration_rescale_invariant : forall c, 0 < c -> forall shape grids,
+  (forall k, (k < length shape)%nat -> length (nth k grids []) = ax_len shape k /\ (2 <= length (nth k grids []))%nat) ->
+  forall pops, wf_pops shape pops -> forall dj tf, 0 < tf ->
+  (forall dt, 0 < dt -> nonsingular shape grids pops dj dt) ->
+  forall fuel theta t T phi,
+  integrate_const fuel shape grids (map (rescale_pop c) pops) (theta / c) tf dj (c * t) (c * T) phi =
+  integrate_const fuel shape grids pops theta tf dj t T phi.
+Proof. exact integrate_const_rescale_invariant. Qed.
+Print Assumptions C03_integration_rescale_invariant.
+
+(** the time-step rule promises exactly that: dt scales with c *)
+Theorem C03_time_step_rule_scales : forall c, 0 < c -> forall tf pops,
+  dt_of tf (map (rescale_pop c) pops) = option_map (Rmult c) (dt_of tf pops).
+Proof. exact dt_of_rescale. Qed.
 
 Example C03_nonvacuous : lincomb 2 3 [1; 2] [10; 20] = [32; 64].
 Proof. unfold lincomb. cbn. f_equal; [lra | f_equal; lra]. Qed.
